@@ -62,16 +62,30 @@ open OlVerif.Sem in
     creates (`t'`) kept apart from the user state.  In particular the truth value of a statement's
     value is never taken (it may be undefined), that of a condition only where the script takes
     it, possibly again right away (under `short_circuit`; KF-D61b is the world where that shows), and an
-    iterator is advanced exactly as the `for` statement advances it.  `while`, break / continue / return are C05's theorem (trace level);
+    iterator is advanced exactly as the `for` statement advances it.  `while` is the next theorem; break / continue / return are C05's (trace level);
     functions, classes and imports are not covered at value level. -/
 theorem module_straightline_semantics {U V : Type} (W : World U V) (hW : Lawful W) (hS : LawfulSeq W) (cfg : Cfg) (root : SymScope)
-    (body : List Stmt) (hs : ∀ s ∈ body, SimpleS s) (e : Expr) (h : lowerFull cfg root body = .ok e) {u u' : U}
+    (body : List Stmt) (hs : ∀ s ∈ body, SimpleS false s) (e : Expr) (h : lowerFull cfg root body = .ok e) {u u' : U}
     (hx : ExecB W body u u') : ∃ v t', Ev W e u [] v u' t' :=
   module_sim W hW hS cfg root body hs e h hx
 
 open OlVerif.Sem in
+/-- **The same with `while`** (with `else`, without break / continue; the test free of assignment expressions,
+    which CPython refuses where the lowering puts it: KF-D16).  Lowering a `while` asks for the helper import
+    `itertools := __import__('itertools')` in front of the program - a name the property allows the converted
+    program to add; its effect is not modelled (the rule for the takewhile comprehension assumes that
+    `itertools` names the module): the converted expression is the wrapper around the lowered statements,
+    possibly preceded by that one import, and the lowered statements take the user state where the script
+    takes it. -/
+theorem module_with_while_semantics {U V : Type} (W : World U V) (hW : Lawful W) (hS : LawfulSeq W) (cfg : Cfg) (root : SymScope)
+    (body : List Stmt) (hs : ∀ s ∈ body, SimpleS true s) (e : Expr) (h : lowerFull cfg root body = .ok e) {u u' : U}
+    (hx : ExecB W body u u') :
+    ∃ b t', (e = wrapExprs cfg b ∨ e = wrapExprs cfg (itertoolsImport :: b)) ∧ Seq W b u [] u' t' :=
+  module_sim_while W hW hS cfg root body hs e h hx
+
+open OlVerif.Sem in
 /-- the hypothesis is decidable: the correspondence check evaluates it on real programs -/
-theorem fragment_decidable_sound (body : List Stmt) (h : simpleModuleB body = true) : ∀ s ∈ body, SimpleS s :=
+theorem fragment_decidable_sound (body : List Stmt) (h : simpleModuleB body = true) : ∀ s ∈ body, SimpleS false s :=
   simpleModuleB_sound body h
 
 open OlVerif.Sem in
@@ -163,7 +177,7 @@ def prog : List Stmt :=
    .if_ (.name "a") [.augAssign (.name "x") .add (.const (.int 2))] [.pass_],
    .for_ (.tuple [.name "y", .name "z"]) (.name "a") [.pass_] [.pass_]]
 
-theorem prog_simple : ∀ s ∈ prog, SimpleS s := fragment_decidable_sound prog (by decide)
+theorem prog_simple : ∀ s ∈ prog, SimpleS false s := fragment_decidable_sound prog (by decide)
 
 def final : List (String × PV) := [("x", .int 3), ("b", .seq [.int 1, .int 1]), ("a", .int 1), ("x", .int 1)]
 
@@ -178,6 +192,22 @@ theorem prog_runs : ExecB W prog [] final :=
 
 example : ∃ e, lowerFull { ifStyle := .shortCircuit } default prog = .ok e ∧ ∃ v t', Ev W e [] [] v final t' :=
   ⟨_, rfl, module_straightline_semantics W W_lawful W_lawfulSeq { ifStyle := .shortCircuit } default prog prog_simple _ rfl prog_runs⟩
+
+/-- `x = 1` / `while x: x += -1` / `else: pass` -/
+def progW : List Stmt :=
+  [.assign [.name "x"] (.const (.int 1)), .while_ (.name "x") [.augAssign (.name "x") .add (.const (.int (-1)))] [.pass_]]
+
+theorem progW_runs : ExecB W progW [] [("x", .int 0), ("x", .int 1)] :=
+  .cons (.assign _ _ (.const _ _ _) (.cons (.name "x" _ _ (by decide)) (.nil _ _)))
+    (.cons (.while_ _ _ _
+        (.step _ _ (.user _ _ (by decide) rfl) rfl
+          (.cons (.augName "x" .add _ (by decide) (.user _ _ (by decide) rfl) (.const _ _ _) rfl) (.nil _))
+          (.done _ _ (.user _ _ (by decide) rfl) rfl))
+        (.cons (.pass _) (.nil _))) (.nil _))
+
+example : ∃ e, lowerFull {} default progW = .ok e ∧
+    ∃ b t', (e = wrapExprs {} b ∨ e = wrapExprs {} (itertoolsImport :: b)) ∧ Seq W b [] [] [("x", .int 0), ("x", .int 1)] t' :=
+  ⟨_, rfl, module_with_while_semantics W W_lawful W_lawfulSeq {} default progW (simpleModuleWB_sound progW (by decide)) _ rfl progW_runs⟩
 end Ex
 
 end OlVerif.C01
